@@ -56,11 +56,12 @@ func propsOfObligation(name string) []string {
 	if len(set) == 0 {
 		set["C01"] = true
 	}
-	if strings.HasPrefix(kind, "frame[") {
+	if strings.HasPrefix(kind, "frame[") || strings.HasPrefix(kind, "frame.input") {
 		set["C04"] = true
 	}
 	if strings.HasPrefix(kind, "lock") {
 		set["C06"] = true
+		delete(set, "C01")
 	}
 	if strings.HasPrefix(kind, "decreases.call") {
 		set["C16"] = true
@@ -327,8 +328,10 @@ func (res *PropResult) report(p *Program, cfg *PropConfig, tier string, writeBas
 	known := loadKnown()
 	baseline := loadBaseline()
 	inBase := map[string]bool{}
+	inBaseNorm := map[string]bool{}
 	for _, n := range baseline[cfg.ID] {
 		inBase[n] = true
+		inBaseNorm[normOb(n)] = true
 	}
 	all := append(append([]*obSummary(nil), res.Summ...), res.Lemmas...)
 	// a function the engine could not execute discharges nothing: every obligation of that
@@ -374,7 +377,9 @@ func (res *PropResult) report(p *Program, cfg *PropConfig, tier string, writeBas
 			}
 			continue
 		case "undecided":
-			if !inBase[s.Name] {
+			// ordinals shift when code is edited: an obligation is claimed if the same clause of the
+			// same function (modulo ordinals) was discharged on the unchanged tree
+			if !inBase[s.Name] && !inBaseNorm[normOb(s.Name)] {
 				undecidedNew = append(undecidedNew, s.Name)
 				continue
 			}
@@ -578,3 +583,8 @@ func writeReplay(p *Program, prop string, s *obSummary, path string) bool {
 	os.WriteFile(path, data, 0o644)
 	return reproduced
 }
+
+var reOrd = regexp.MustCompile(`\[\d+\]`)
+
+// normOb: obligation name with ordinals removed.
+func normOb(name string) string { return reOrd.ReplaceAllString(name, "[*]") }
